@@ -66,6 +66,11 @@ pub enum Op {
     CloneFromInjector { dst: u8, src: u8 },
     /// n restarts in a row without a tick in between (counters that wrap)
     RestartBurst { n: u16, clear: bool },
+    /// from now on the notify callback takes `ms` milliseconds when it is called by a worker thread (a slow
+    /// event-loop wake-up; the worker calls it while it holds the worker lock)
+    SlowNotify { ms: u8 },
+    /// lift the hold of the run without waiting for it to finish
+    ReleaseRunNoWait,
     /// the column text (plus a trailing space) is parsed again with stricter settings (Ignore -> Smart ->
     /// Respect, normalization Smart -> Never) and `append = true`: every new match is an old match (skipped when the
     /// text contains a negation marker)
@@ -118,6 +123,9 @@ pub const PATTERN_ALPHABET: &[char] = &['a', 'b', 'c', 'A', 'B', ' ', '!', '^', 
 
 /// item column text from a selector: short words over a small alphabet so that patterns match
 /// proper subsets and ties in score and length occur
+/// milliseconds the notify callback sleeps when a worker thread calls it (0 = not at all)
+static SLOW_NOTIFY_MS: std::sync::atomic::AtomicU64 = std::sync::atomic::AtomicU64::new(0);
+
 pub fn item_text(sel: u16, col: usize) -> String {
     const W: &[&str] = &["a", "b", "c", "ab", "ba", "A", "B", "-", " ", "é", "σ", "a$", "\\", "c ", "x", "aa"];
     let mut x = (sel as u32).wrapping_mul(2654435761).rotate_left(col as u32 * 7 + 3) ^ (col as u32 * 0x9E37);
@@ -261,6 +269,7 @@ impl<'h> Machine<'h> {
         gate::reset();
         payload::reset_ledger();
         let cfg = h.cfg.to_config();
+        SLOW_NOTIFY_MS.store(0, std::sync::atomic::Ordering::Relaxed);
         let notify_count = Arc::new(std::sync::atomic::AtomicU64::new(0));
         let nc = notify_count.clone();
         let nuc = Nucleo::new(
@@ -268,6 +277,10 @@ impl<'h> Machine<'h> {
             Arc::new(move || {
                 nc.fetch_add(1, std::sync::atomic::Ordering::SeqCst);
                 gate::log_event(hsite::NOTIFY, 0);
+                let ms = SLOW_NOTIFY_MS.load(std::sync::atomic::Ordering::Relaxed);
+                if ms > 0 && std::thread::current().name().map_or(false, |n| n.starts_with("nucleo worker")) {
+                    std::thread::sleep(Duration::from_millis(ms));
+                }
             }),
             Some(h.threads.max(1) as usize),
             h.columns.max(1) as u32,
@@ -717,6 +730,14 @@ impl<'h> Machine<'h> {
                     let col = *col as usize % self.cols();
                     self.apply_edit(col, edit);
                 }
+                Op::SlowNotify { ms } => {
+                    SLOW_NOTIFY_MS.store((*ms % 40) as u64, std::sync::atomic::Ordering::Relaxed);
+                    self.rep.label("slow-notify-callback");
+                }
+                Op::ReleaseRunNoWait => {
+                    gate::release_run();
+                    gate::release_score();
+                }
                 Op::ReparseStricter { col } => {
                     let col = *col as usize % self.cols();
                     let (cm, nm) = self.modes[col];
@@ -1131,6 +1152,8 @@ pub fn op_strategy(bias: Bias) -> BoxedStrategy<Op> {
         14 => (0u8..3, edit).prop_map(|(col, edit)| Op::Reparse { col, edit }),
         3 => (0u8..3, 0u8..3, 0u8..2).prop_map(|(col, case, norm)| Op::ReparseMode { col, case, norm }),
         2 => (0u8..3).prop_map(|col| Op::ReparseStricter { col }),
+        1 => (0u8..30).prop_map(|ms| Op::SlowNotify { ms }),
+        1 => Just(Op::ReleaseRunNoWait),
         22 => (0u8..3).prop_map(|timeout| Op::Tick { timeout }),
         w_restart => any::<bool>().prop_map(|clear| Op::Restart { clear }),
         w_inj / 3 + 1 => Just(Op::NewInjector),
@@ -1246,6 +1269,13 @@ pub fn templates() -> Vec<History> {
         let mut h = base(1, vec![Op::Bulk { inj: 0, n: 64, text: 11 }, Op::Bulk { inj: 0, n: 40, text: 3 }, Op::Reparse { col: 0, edit: Edit::Replace(first) }, Op::Tick { timeout: 2 }, Op::Tick { timeout: 2 }, Op::ReparseStricter { col: 0 }, Op::Tick { timeout: 2 }, Op::Tick { timeout: 2 }, Op::ReparseStricter { col: 0 }, Op::Tick { timeout: 2 }, Op::Tick { timeout: 2 }]);
         h.modes = vec![mode; 3];
         v.push(h);
+    }
+    // the worker sits in a slow notify callback (holding its lock) when a restarting / cancelling tick arrives
+    for clear in [false, true] {
+        for t in [0u8, 1] {
+            v.push(base(1, vec![push_n(30, 3), Op::NewInjector, Op::Reparse { col: 0, edit: Edit::Replace(0) }, Op::HoldRunAt { phase: 4 }, Op::Tick { timeout: 0 }, Op::Tick { timeout: 0 }, Op::SlowNotify { ms: 25 }, Op::ReleaseRunNoWait, Op::Sleep { ms: 2 }, Op::Restart { clear }, Op::NewInjector, Op::Tick { timeout: t }, Op::Tick { timeout: 2 }, Op::Tick { timeout: 2 }]));
+            v.push(base(1, vec![push_n(30, 3), Op::Reparse { col: 0, edit: Edit::Replace(0) }, Op::HoldRunAt { phase: 4 }, Op::Tick { timeout: 0 }, Op::Tick { timeout: 0 }, Op::SlowNotify { ms: 25 }, Op::ReleaseRunNoWait, Op::Sleep { ms: 2 }, Op::Reparse { col: 0, edit: Edit::Replace(if clear { 1 } else { 2 }) }, Op::Tick { timeout: t }, Op::Tick { timeout: 2 }, Op::Tick { timeout: 2 }]));
+        }
     }
     // 255 / 256 / 257 restarts between two ticks
     for n in [255u16, 256, 257] {
